@@ -11,11 +11,27 @@ CHECKS = [
         "note": "Trusted: pyvc's encoding of the Python subset (ints exact, floats as reals), z3/cvc5 unsat answers, xfrm "
                 "attributes as independent abstract fields (C09 obligation). Termination not proved.",
     },
+    {
+        "property_id": "C11",
+        "technique": "contract-based deductive verification (pyvc VC generation over real source, z3/cvc5; XSD facets as oracle)",
+        "category": "proof",
+        "text": "For every (simple-type class, XSD simple type) pair -- pairing recovered mechanically from the attribute declarations "
+                "and the XSD attribute they denote -- the real to_xml/from_xml/validate/convert_* sources are executed symbolically "
+                "per input kind (int, float as real, bool, str as z3 string, None) and per lexical alternative of the schema type; "
+                "obligations: accepted => written form in the type's lexical space (facets parsed from the XSD at run time), "
+                "representable => accepted, rejection only by TypeError/ValueError, every lexical alternative readable, "
+                "from_xml(to_xml(v)) within the quantum; XML-mapped enumerations as ground obligations per member and per schema token. "
+                "Evidence level is 'other' while known findings (refuted obligations) exist.",
+        "note": "Assumed: IEEE double = reals (complemented by the bounded C11.ieee_probes job, never counted as proved); Python's "
+                "int()/float()/str.isdigit() lexical grammars (z3 regexes built from the interpreter's Unicode tables); XSD files are "
+                "the standard; XSD patterns using \\p{..}/class subtraction are undecided (ST_ContentType). 25 known findings "
+                "F17-F20 (known_findings.json); F1, F2, F11, F15 repaired by fix: commits.",
+    },
 ]
 
 _PENDING = "check not built yet in this session (planned, see DESIGN.md section 5)"
 NOT_APPLICABLE = [
     {"property_id": p, "reason": _PENDING}
-    for p in ["C01", "C02", "C03", "C04", "C05", "C06", "C07", "C08", "C09", "C10", "C11", "C12", "C13", "C14", "C15", "C16",
+    for p in ["C01", "C02", "C03", "C04", "C05", "C06", "C07", "C08", "C09", "C10", "C12", "C13", "C14", "C15", "C16",
               "C18", "C19", "C20"]
 ]
